@@ -1641,4 +1641,318 @@ theorem join_cov_inside_template' {r : RVs α} (hn : (names r).Nodup) (hq : ∀ 
   have hM : calcMat (getitem r inds) (List.idxOf a (names (getitem r inds))) (List.idxOf b (names (getitem r inds))) = v := by
     rw [calcMat_apply _ hqJ]; exact hcov.symm
   rw [hinv _ _ (by rw [hM]; exact hv0), hM]
+
+
+theorem applyF_cons (f : Dict) (p : String × Rat) (A : List (String × Rat)) :
+    applyF f (p :: A) = applyF (fupd f p.1 p.2) A := rfl
+
+theorem applyF_of_agree (A : List (String × Rat)) (s : String) (v : Rat)
+    (hag : ∀ p ∈ A, p.1 = s → p.2 = v) :
+    ∀ f : Dict, (f s = some v ∨ ∃ p ∈ A, p.1 = s) → applyF f A s = some v := by
+  induction A with
+  | nil =>
+    intro f h
+    rcases h with h | ⟨p, hp, _⟩
+    · exact h
+    · cases hp
+  | cons p A ih =>
+    intro f h
+    rw [applyF_cons]
+    apply ih (fun q hq => hag q (List.mem_cons_of_mem _ hq))
+    by_cases hp : p.1 = s
+    · left
+      simp [fupd, hp, hag p List.mem_cons_self hp]
+    · have hsp : ¬ s = p.1 := fun e => hp e.symm
+      rcases h with h | ⟨q, hq, hqs⟩
+      · left; simp [fupd, hsp, h]
+      · cases hq with
+        | head => exact absurd hqs hp
+        | tail _ hq => right; exact ⟨q, hq, hqs⟩
+
+theorem applyF_not_assigned (A : List (String × Rat)) (s : String) (h : ∀ p ∈ A, p.1 ≠ s) :
+    ∀ f : Dict, applyF f A s = f s := by
+  induction A with
+  | nil => intro f; rfl
+  | cons p A ih =>
+    intro f
+    rw [applyF_cons, ih (fun q hq => h q (List.mem_cons_of_mem _ hq))]
+    have : ¬ s = p.1 := fun e => h p List.mem_cons_self e.symm
+    simp [fupd, this]
+
+theorem agree_spec {A : List (String × Rat)} (h : agree A = true) :
+    ∀ p ∈ A, ∀ q ∈ A, p.1 = q.1 → p.2 = q.2 := by
+  intro p hp q hq hpq
+  simp only [agree, List.all_eq_true] at h
+  have := h p hp q hq
+  simp [hpq] at this
+  exact this
+
+theorem mem_positions {d : Dist Entry} {i j : Nat} :
+    (i, j) ∈ positions d ↔ i < matRows d.var ∧ j < matCols d.var := by
+  simp [positions, List.mem_flatMap]
+
+theorem sdcorr_ok {sqrt : Rat → Rat} {vals : Dict} {rvs : RVs Entry} {F : Dict}
+    (h : sdcorr sqrt vals rvs = .ok F) :
+    F = applyF vals (rvs.flatMap (sdcorrAsg sqrt vals)) ∧ ∀ d ∈ rvs, sdcorrErr vals d = none := by
+  unfold sdcorr at h
+  cases hf : rvs.findSome? (sdcorrErr vals) with
+  | some e => rw [hf] at h; cases h
+  | none =>
+    rw [hf] at h
+    injection h with h
+    refine ⟨h.symm, ?_⟩
+    intro d hd
+    exact List.findSome?_eq_none_iff.mp hf d hd
+
+theorem asg_mem_joint {sqrt : Rat → Rat} {vals : Dict} {d : Dist Entry} (hj : d.joint = true) {i j : Nat}
+    (hp : (i, j) ∈ positions d) {s : String} (hs : symAt d i j = some s) :
+    (s, fwdVal sqrt vals d i j) ∈ sdcorrAsg sqrt vals d := by
+  simp only [sdcorrAsg, hj, if_true]
+  exact List.mem_filterMap.mpr ⟨(i, j), hp, by simp [hs]⟩
+
+/-- With every parameter assigned one value only, the result holds `fwdVal` (computed from the
+    original values) for the symbol at every position of every joint block. -/
+theorem sdcorr_value_joint {sqrt : Rat → Rat} {vals : Dict} {rvs : RVs Entry} {F : Dict}
+    (h : sdcorr sqrt vals rvs = .ok F) (hag : agree (rvs.flatMap (sdcorrAsg sqrt vals)) = true)
+    {d : Dist Entry} (hd : d ∈ rvs) (hj : d.joint = true) {i j : Nat} (hp : (i, j) ∈ positions d)
+    {s : String} (hs : symAt d i j = some s) : F s = some (fwdVal sqrt vals d i j) := by
+  obtain ⟨hF, _⟩ := sdcorr_ok h
+  have hm : (s, fwdVal sqrt vals d i j) ∈ rvs.flatMap (sdcorrAsg sqrt vals) :=
+    List.mem_flatMap.mpr ⟨d, hd, asg_mem_joint hj hp hs⟩
+  rw [hF]
+  apply applyF_of_agree
+  · intro q hq hqs
+    exact (agree_spec hag q hq _ hm hqs)
+  · right; exact ⟨_, hm, rfl⟩
+
+
+/-- The converted value of every parameter depends only on the original values, not on the order
+    of the distributions (given that no parameter is assigned two different values). -/
+theorem sdcorr_order_independent' {sqrt : Rat → Rat} {vals : Dict} {rvs rvs' : RVs Entry} {F F' : Dict}
+    (hperm : rvs'.Perm rvs) (h : sdcorr sqrt vals rvs = .ok F) (h' : sdcorr sqrt vals rvs' = .ok F')
+    (hag : agree (rvs.flatMap (sdcorrAsg sqrt vals)) = true) (s : String) : F' s = F s := by
+  obtain ⟨hF, _⟩ := sdcorr_ok h
+  obtain ⟨hF', _⟩ := sdcorr_ok h'
+  have hmem : ∀ p, p ∈ rvs'.flatMap (sdcorrAsg sqrt vals) ↔ p ∈ rvs.flatMap (sdcorrAsg sqrt vals) := by
+    intro p
+    simp only [List.mem_flatMap]
+    constructor
+    · rintro ⟨d, hd, hp⟩; exact ⟨d, hperm.mem_iff.mp hd, hp⟩
+    · rintro ⟨d, hd, hp⟩; exact ⟨d, hperm.mem_iff.mpr hd, hp⟩
+  rw [hF, hF']
+  by_cases hex : ∃ p ∈ rvs.flatMap (sdcorrAsg sqrt vals), p.1 = s
+  · obtain ⟨p, hp, hps⟩ := hex
+    rw [applyF_of_agree _ s p.2 (fun q hq hqs => agree_spec hag q hq p hp (hqs.trans hps.symm)) vals
+        (Or.inr ⟨p, hp, hps⟩),
+      applyF_of_agree _ s p.2 (fun q hq hqs => agree_spec hag q ((hmem q).mp hq) p hp (hqs.trans hps.symm)) vals
+        (Or.inr ⟨p, (hmem p).mpr hp, hps⟩)]
+  · have hno : ∀ p ∈ rvs.flatMap (sdcorrAsg sqrt vals), p.1 ≠ s := fun p hp e => hex ⟨p, hp, e⟩
+    rw [applyF_not_assigned _ s hno, applyF_not_assigned _ s (fun p hp => hno p ((hmem p).mp hp))]
+
+theorem symAt_ent {d : Dist Entry} {i j : Nat} {s : String} (h : symAt d i j = some s) : ent d.var i j = .sym s := by
+  unfold symAt at h
+  cases he : ent d.var i j with
+  | sym t => rw [he] at h; injection h with h; rw [h]
+  | num q => rw [he] at h; cases h
+
+theorem valAt_sym {D : Dict} {d : Dist Entry} {i j : Nat} {s : String} (h : symAt d i j = some s) :
+    valAt D d i j = (D s).getD 0 := by
+  simp [valAt, symAt_ent h]
+
+/-- Shape and square-root hypotheses of the inverse theorem. -/
+structure SdOk (sqrt : Rat → Rat) (vals : Dict) (rvs : RVs Entry) : Prop where
+  square : ∀ d ∈ rvs, d.joint = true → matRows d.var = matCols d.var
+  sq_joint : ∀ d ∈ rvs, d.joint = true → ∀ i, i < matRows d.var →
+    sqrt (valAt vals d i i) * sqrt (valAt vals d i i) = valAt vals d i i ∧ sqrt (valAt vals d i i) ≠ 0
+  sq_normal : ∀ d ∈ rvs, d.joint = false → ∀ s a, ent d.var 0 0 = .sym s → vals s = some a → sqrt a * sqrt a = a
+
+theorem err_none_joint {vals : Dict} {d : Dist Entry} (hj : d.joint = true) (h : sdcorrErr vals d = none)
+    {i j : Nat} (hp : (i, j) ∈ positions d) : hasVal vals d i j = true ∧ ∃ s, symAt d i j = some s := by
+  simp only [sdcorrErr, hj, if_true] at h
+  by_cases h1 : ((positions d).any fun p => !hasVal vals d p.1 p.2) = true
+  · rw [if_pos h1] at h; cases h
+  · rw [if_neg h1] at h
+    by_cases h2 : ((positions d).any fun p => (symAt d p.1 p.2).isNone) = true
+    · rw [if_pos h2] at h; cases h
+    · simp only [List.any_eq_true, not_exists, not_and] at h1 h2
+      have a1 := h1 (i, j) hp
+      have a2 := h2 (i, j) hp
+      refine ⟨by simpa using a1, ?_⟩
+      cases hs : symAt d i j with
+      | none => simp [hs] at a2
+      | some s => exact ⟨s, rfl⟩
+
+/-- A parameter that is assigned has a value in the original dictionary. -/
+theorem asg_name_has_val {sqrt : Rat → Rat} {vals : Dict} {d : Dist Entry} (herr : sdcorrErr vals d = none)
+    {p : String × Rat} (hp : p ∈ sdcorrAsg sqrt vals d) : (vals p.1).isSome = true := by
+  by_cases hj : d.joint = true
+  · simp only [sdcorrAsg, hj, if_true] at hp
+    obtain ⟨⟨i, j⟩, hpos, hmap⟩ := List.mem_filterMap.mp hp
+    obtain ⟨hv, s, hs⟩ := err_none_joint hj herr hpos
+    simp only [hs, Option.map_some] at hmap
+    injection hmap with hmap
+    rw [← hmap]
+    simpa [hasVal, symAt_ent hs] using hv
+  · have hj' : d.joint = false := by simpa using hj
+    simp only [sdcorrAsg, hj'] at hp
+    simp only [Bool.false_eq_true, if_false] at hp
+    cases he : ent d.var 0 0 with
+    | num q => simp [he] at hp
+    | sym s =>
+      simp only [he] at hp
+      by_cases hv : (vals s).isSome = true
+      · simp only [hv, if_true, List.mem_singleton] at hp
+        rw [hp]; exact hv
+      · simp [hv] at hp
+
+/-- Every assignment of the inverse conversion restores the original value. -/
+theorem inv_asg_restores {sqrt : Rat → Rat} {vals : Dict} {rvs : RVs Entry} {F : Dict}
+    (h : sdcorr sqrt vals rvs = .ok F) (hag : agree (rvs.flatMap (sdcorrAsg sqrt vals)) = true)
+    (hok : SdOk sqrt vals rvs) {d : Dist Entry} (hd : d ∈ rvs) :
+    ∀ p ∈ sdcorrInvAsg F d, vals p.1 = some p.2 := by
+  obtain ⟨hF, herr⟩ := sdcorr_ok h
+  intro p hp
+  by_cases hj : d.joint = true
+  · simp only [sdcorrInvAsg, hj, if_true] at hp
+    obtain ⟨⟨i, j⟩, hpos, hmap⟩ := List.mem_filterMap.mp hp
+    obtain ⟨hv, s, hs⟩ := err_none_joint hj (herr d hd) hpos
+    simp only [hs, Option.map_some] at hmap
+    injection hmap with hmap
+    rw [← hmap]
+    obtain ⟨hi, hjj⟩ := mem_positions.mp hpos
+    have hsq := hok.square d hd hj
+    have hpi : (i, i) ∈ positions d := mem_positions.mpr ⟨hi, by omega⟩
+    have hpj : (j, j) ∈ positions d := mem_positions.mpr ⟨by omega, hjj⟩
+    obtain ⟨_, si, hsi⟩ := err_none_joint hj (herr d hd) hpi
+    obtain ⟨_, sj, hsj⟩ := err_none_joint hj (herr d hd) hpj
+    have vij := sdcorr_value_joint h hag hd hj hpos hs
+    have vii := sdcorr_value_joint h hag hd hj hpi hsi
+    have vjj := sdcorr_value_joint h hag hd hj hpj hsj
+    -- the original value of s
+    have hvs : vals s = some (valAt vals d i j) := by
+      have he := symAt_ent hs
+      simp only [hasVal, he] at hv
+      simp only [valAt, he]
+      cases hvv : vals s with
+      | none => simp [hvv] at hv
+      | some a => rfl
+    simp only
+    rw [hvs]
+    congr 1
+    obtain ⟨qi, ni⟩ := hok.sq_joint d hd hj i hi
+    obtain ⟨qj, nj⟩ := hok.sq_joint d hd hj j (by omega)
+    unfold invVal
+    rw [valAt_sym (D := F) hs, valAt_sym (D := F) hsi, valAt_sym (D := F) hsj, vij, vii, vjj]
+    simp only [Option.getD_some]
+    by_cases hij : i = j
+    · subst hij
+      simp only [fwdVal, ne_eq, not_true_eq_false, if_false]
+      exact qi.symm
+    · simp only [fwdVal, ne_eq, hij, not_false_eq_true, if_true, not_true_eq_false, if_false]
+      by_cases hz : valAt vals d i j = 0
+      · simp [hz]
+      · simp only [hz, if_false]
+        generalize sqrt (valAt vals d i i) = a at *
+        generalize sqrt (valAt vals d j j) = b at *
+        generalize valAt vals d i j = x at *
+        grind
+  · have hj' : d.joint = false := by simpa using hj
+    simp only [sdcorrInvAsg, hj'] at hp
+    simp only [Bool.false_eq_true, if_false] at hp
+    cases he : ent d.var 0 0 with
+    | num q => simp [he] at hp
+    | sym s =>
+      simp only [he] at hp
+      by_cases hFs : (F s).isSome = true
+      · simp only [hFs, if_true, List.mem_singleton] at hp
+        rw [hp]
+        -- F s comes from vals s: the forward step assigned sqrt (vals s) when vals s is some
+        cases hvs : vals s with
+        | none =>
+          -- then nothing assigns s … F s would be none unless another distribution assigns it
+          exfalso
+          have hno : ∀ q ∈ rvs.flatMap (sdcorrAsg sqrt vals), q.1 ≠ s := by
+            intro q hq hqs
+            obtain ⟨e, he', hqe⟩ := List.mem_flatMap.mp hq
+            have := asg_name_has_val (herr e he') hqe
+            rw [hqs, hvs] at this
+            cases this
+          rw [hF, applyF_not_assigned _ s hno, hvs] at hFs
+          cases hFs
+        | some a =>
+          have hm : (s, sqrt a) ∈ rvs.flatMap (sdcorrAsg sqrt vals) := by
+            refine List.mem_flatMap.mpr ⟨d, hd, ?_⟩
+            simp [sdcorrAsg, hj', he, hvs]
+          have hFs' : F s = some (sqrt a) := by
+            rw [hF]
+            exact applyF_of_agree _ s _ (fun q hq hqs => agree_spec hag q hq _ hm hqs) vals (Or.inr ⟨_, hm, rfl⟩)
+          simp only [hFs', Option.getD_some]
+          congr 1
+          exact (hok.sq_normal d hd hj' s a he hvs).symm
+      · simp [hFs] at hp
+
+theorem inv_names_of_fwd {sqrt : Rat → Rat} {vals : Dict} {rvs : RVs Entry} {F : Dict}
+    (h : sdcorr sqrt vals rvs = .ok F) (hag : agree (rvs.flatMap (sdcorrAsg sqrt vals)) = true)
+    {s : String} (hfw : ∃ p ∈ rvs.flatMap (sdcorrAsg sqrt vals), p.1 = s) :
+    ∃ q ∈ rvs.flatMap (sdcorrInvAsg F), q.1 = s := by
+  obtain ⟨hF, herr⟩ := sdcorr_ok h
+  obtain ⟨p, hp, hps⟩ := hfw
+  obtain ⟨d, hd, hpd⟩ := List.mem_flatMap.mp hp
+  by_cases hj : d.joint = true
+  · simp only [sdcorrAsg, hj, if_true] at hpd
+    obtain ⟨⟨i, j⟩, hpos, hmap⟩ := List.mem_filterMap.mp hpd
+    cases hs : symAt d i j with
+    | none => simp [hs] at hmap
+    | some t =>
+      simp only [hs, Option.map_some] at hmap
+      injection hmap with hmap
+      refine ⟨(t, invVal F d i j), List.mem_flatMap.mpr ⟨d, hd, ?_⟩, ?_⟩
+      · simp only [sdcorrInvAsg, hj, if_true]
+        exact List.mem_filterMap.mpr ⟨(i, j), hpos, by simp [hs]⟩
+      · rw [← hps, ← hmap]
+  · have hj' : d.joint = false := by simpa using hj
+    simp only [sdcorrAsg, hj'] at hpd
+    simp only [Bool.false_eq_true, if_false] at hpd
+    cases he : ent d.var 0 0 with
+    | num q => simp [he] at hpd
+    | sym t =>
+      simp only [he] at hpd
+      by_cases hv : (vals t).isSome = true
+      · simp only [hv, if_true, List.mem_singleton] at hpd
+        have hFt : F t = some p.2 := by
+          rw [hF]
+          refine applyF_of_agree _ t _ (fun q hq hqs => agree_spec hag q hq p hp (by rw [hqs, hpd])) vals
+            (Or.inr ⟨p, hp, by rw [hpd]⟩)
+        refine ⟨(t, (F t).getD 0 * (F t).getD 0), List.mem_flatMap.mpr ⟨d, hd, ?_⟩, ?_⟩
+        · simp [sdcorrInvAsg, hj', he, hFt]
+        · rw [← hps, hpd]
+      · simp [hv] at hpd
+
+/-- `sdcorr⁻¹ ∘ sdcorr = id`, also when parameters are shared between distributions. -/
+theorem sdcorr_inverse' {sqrt : Rat → Rat} {vals : Dict} {rvs : RVs Entry} {F : Dict}
+    (h : sdcorr sqrt vals rvs = .ok F) (hag : agree (rvs.flatMap (sdcorrAsg sqrt vals)) = true)
+    (hok : SdOk sqrt vals rvs) (s : String) : sdcorrInv F rvs s = vals s := by
+  obtain ⟨hF, _⟩ := sdcorr_ok h
+  have hrest : ∀ p ∈ rvs.flatMap (sdcorrInvAsg F), vals p.1 = some p.2 := by
+    intro p hp
+    obtain ⟨d, hd, hpd⟩ := List.mem_flatMap.mp hp
+    exact inv_asg_restores h hag hok hd p hpd
+  unfold sdcorrInv
+  by_cases hex : ∃ p ∈ rvs.flatMap (sdcorrInvAsg F), p.1 = s
+  · obtain ⟨p, hp, hps⟩ := hex
+    have hv := hrest p hp
+    rw [hps] at hv
+    rw [hv]
+    apply applyF_of_agree
+    · intro q hq hqs
+      have := hrest q hq
+      rw [hqs, hv] at this
+      injection this with this
+      exact this.symm
+    · right; exact ⟨p, hp, hps⟩
+  · have hno : ∀ p ∈ rvs.flatMap (sdcorrInvAsg F), p.1 ≠ s := fun p hp e => hex ⟨p, hp, e⟩
+    rw [applyF_not_assigned _ s hno, hF]
+    apply applyF_not_assigned
+    intro p hp e
+    exact hex (inv_names_of_fwd h hag ⟨p, hp, e⟩)
 end Pharmpy.C11
